@@ -83,7 +83,11 @@ HANDLE_FAILURE = {
     'raises': {},        # raises nothing (given the formatter does not)
 }
 
+# a layer whose tearDown has been attempted is forgotten at once: no second attempt for the same set-up (C01)
+INV_ATT = "forall(l, Layer, implies(l in G.attempted, l not in setup_layers))"
+
 SET_POSTS_EXC = [
+    INV_ATT,
     "forall(l, Layer, implies(old(l in setup_layers), l in setup_layers))",
     "forall(l, Layer, implies(l in setup_layers, old(l in setup_layers) or panc(l, layer)))",
     "closed(setup_layers)",
@@ -94,9 +98,10 @@ SET_POSTS_EXC = [
 SETUP = {
     'property': ['C01', 'C04'],
     'params': {'options': 'Rec[Options]', 'layer': 'Layer', 'setup_layers': 'Dict[Layer,int]'},
-    'ghost': {'bad': 'int', 'ntd': 'bool'},
-    'requires': ["WF()", "closed(setup_layers)", "object not in setup_layers", "layer != object", "not G.ntd"],
-    'modifies': ['setup_layers', 'G.bad'],
+    'ghost': {'bad': 'int', 'ntd': 'bool', 'attempted': 'Set[Layer]'},
+    'requires': ["WF()", "closed(setup_layers)", "object not in setup_layers", "layer != object", "not G.ntd", INV_ATT],
+    'modifies': ['setup_layers', 'G.bad', 'G.attempted'],
+    'ghost_code': {'setup_layers[layer] = 1': ['G.attempted.discard(layer)']},   # a new set-up: a new tearDown is due
     'decreases': "rank(layer)",
     'ensures': [
         "forall(l, Layer, iff(l in setup_layers, old(l in setup_layers) or isanc(l, layer)))",
@@ -104,6 +109,7 @@ SETUP = {
         "object not in setup_layers",
         "G.bad == old(G.bad)",
         "G.ntd == old(G.ntd)",
+        INV_ATT,
     ],
     'raises': {
         # a raising setUp leaves the layer itself unmarked; what was set up before stays set up
@@ -128,6 +134,7 @@ SETUP = {
             "object not in setup_layers",
             "G.bad == old(G.bad)",
             "G.ntd == old(G.ntd)",
+            INV_ATT,
         ],
     },
     'rules': {
@@ -139,9 +146,9 @@ TEARDOWN = {
     'property': ['C01', 'C02', 'C04'],
     'params': {'options': 'Rec[Options]', 'needed': 'Dict[Layer,int]', 'setup_layers': 'Dict[Layer,int]',
                'errors': 'List[Tuple[Any,Any]]', 'optional': 'bool'},
-    'ghost': {'bad': 'int', 'ntd': 'bool'},
-    'requires': ["WF()", "closed(setup_layers)", "closed(needed)", "object not in setup_layers"],
-    'modifies': ['setup_layers', 'errors', 'G.bad', 'G.ntd'],
+    'ghost': {'bad': 'int', 'ntd': 'bool', 'attempted': 'Set[Layer]'},
+    'requires': ["WF()", "closed(setup_layers)", "closed(needed)", "object not in setup_layers", INV_ATT],
+    'modifies': ['setup_layers', 'errors', 'G.bad', 'G.ntd', 'G.attempted'],
     'locals': {'unneeded': 'List[Layer]'},
     'ensures': [
         "forall(l, Layer, iff(l in setup_layers, old(l in setup_layers) and l in needed))",   # exactly the unneeded ones went
@@ -150,9 +157,10 @@ TEARDOWN = {
         "closed(setup_layers)",
         "object not in setup_layers",
         "len(errors) >= old(len(errors))",
+        INV_ATT,
     ],
     'raises': {
-        'CanNotTearDown': ["not optional", "G.ntd", "closed(setup_layers)", "object not in setup_layers",
+        'CanNotTearDown': [INV_ATT, "not optional", "G.ntd", "closed(setup_layers)", "object not in setup_layers",
                            "forall(l, Layer, implies(l in setup_layers, old(l in setup_layers)))",
                            "G.bad - old(G.bad) == len(errors) - old(len(errors))",
                            "len(errors) >= old(len(errors))"],
@@ -162,6 +170,7 @@ TEARDOWN = {
     'callsites': {
         'layer.tearDown()': [
             "layer in setup_layers",                                             # only while it is set up
+            "layer not in G.attempted",                                          # one attempt per set-up
             "forall(d, Layer, implies(d in setup_layers and d != layer, not isanc(layer, d)))",  # everything derived is gone
         ],
     },
@@ -177,6 +186,7 @@ TEARDOWN = {
             "G.bad - old(G.bad) == len(errors) - old(len(errors))",
             "implies(not optional, G.ntd == old(G.ntd))",
             "len(errors) >= old(len(errors))",
+            INV_ATT,
         ],
     },
     'rules': {
@@ -187,7 +197,7 @@ TEARDOWN = {
 
 
 BADSUM = "G.bad - old(G.bad) == (len(failures) - old(len(failures))) + (len(errors) - old(len(errors)))"
-TEST_GHOST = {'bad': 'int', 'ntd': 'bool', 'stdout': 'Stream', 'stderr': 'Stream', 'tsu': 'bool', 'hookexc': 'bool',
+TEST_GHOST = {'bad': 'int', 'ntd': 'bool', 'attempted': 'Set[Layer]', 'ran': 'int', 'stdout': 'Stream', 'stderr': 'Stream', 'tsu': 'bool', 'hookexc': 'bool',
               'cap_out': 'Opt[Str]', 'cap_err': 'Opt[Str]'}
 STREAMS_SAME = "G.stdout == old(G.stdout) and G.stderr == old(G.stderr)"
 BETWEEN_TESTS = ["not G.tsu", "not G.hookexc"]      # no per-test layer hook pending, none has raised
@@ -205,8 +215,9 @@ RUN_TESTS_FN = {
     'locals': {},
     'requires': ["WF()"] + BETWEEN_TESTS,
     'modifies': ['failures', 'errors', 'skipped', 'G.bad', 'G.stdout', 'G.stderr', 'G.tsu', 'G.hookexc', 'G.cap_out',
-                 'G.cap_err'],
-    'ensures': [BADSUM, "result >= 0", "len(failures) >= old(len(failures))", "len(errors) >= old(len(errors))",
+                 'G.cap_err', 'G.ran'],
+    'ghost_exit': {'ran': 'G.ran + _ret'},      # G.ran: number of tests run, as reported by the test loops (C12)
+    'ensures': ["G.ran == old(G.ran) + result", BADSUM, "result >= 0", "len(failures) >= old(len(failures))", "len(errors) >= old(len(errors))",
                 STREAMS_SAME] + BETWEEN_TESTS,           # C13/C18: after the tests the std streams are what they were
     'raises': {
         'EndRun': ["options.post_mortem", STREAMS_SAME],
@@ -242,15 +253,17 @@ RUN_LAYER = {
     'returns': 'int',
     'ghost': TEST_GHOST,
     'locals': {'gathered': 'List[Layer]'},
-    'requires': ["WF()", "closed(setup_layers)", "object not in setup_layers", "not G.ntd", "layer != object"] + BETWEEN_TESTS,
-    'modifies': ['setup_layers', 'failures', 'errors', 'skipped', 'G.bad', 'G.ntd', 'G.stdout', 'G.stderr', 'G.tsu',
+    'requires': ["WF()", "closed(setup_layers)", "object not in setup_layers", "not G.ntd", "layer != object", INV_ATT]
+                + BETWEEN_TESTS,
+    'modifies': ['setup_layers', 'failures', 'errors', 'skipped', 'G.bad', 'G.ntd', 'G.attempted', 'G.ran', 'G.stdout', 'G.stderr', 'G.tsu',
                  'G.hookexc', 'G.cap_out', 'G.cap_err'],
-    'ensures': ["closed(setup_layers)", "object not in setup_layers", "not G.ntd", BADSUM, "result >= 0",
+    'ensures': ["closed(setup_layers)", "object not in setup_layers", "not G.ntd", BADSUM, "result >= 0", INV_ATT,
+                "G.ran == old(G.ran) + result",                       # C12: the count handed to the caller is what ran
                 "len(failures) >= old(len(failures))", "len(errors) >= old(len(errors))", STREAMS_SAME] + BETWEEN_TESTS,
     'raises': {
         # containment (C04): for hooks raising Exception subclasses nothing but these leaves run_layer
-        'EndRun': ["closed(setup_layers)", "object not in setup_layers", "options.post_mortem", STREAMS_SAME],
-        'CanNotTearDown': ["G.ntd", "closed(setup_layers)", "object not in setup_layers", BADSUM,
+        'EndRun': ["closed(setup_layers)", "object not in setup_layers", "options.post_mortem", STREAMS_SAME, INV_ATT],
+        'CanNotTearDown': [INV_ATT, "G.ran == old(G.ran)", "G.ntd", "closed(setup_layers)", "object not in setup_layers", BADSUM,
                            "len(failures) >= old(len(failures))", "len(errors) >= old(len(errors))", STREAMS_SAME]
                           + BETWEEN_TESTS,
         'MemoryError': [STREAMS_SAME],
@@ -280,11 +293,17 @@ def hook(name, raises, effect=None):
             effect(E, st, None)
         return out + k(st, NONE)
     handler.__name__ = 'HOOK_%s(returns | raises %s)' % (name, '/'.join(raises))
-    handler.modifies = ['G.bad', 'G.ntd']
+    handler.modifies = ['G.bad', 'G.ntd', 'G.attempted']
     return handler
 
 
 def teardown_effect(E, st, exc):
+    if 'attempted' in st.ghost:
+        layer = st.lookup('layer')
+        g = st.ghost['attempted']
+        h = st.heap[g.rid]
+        from pyvc.vals import HDict
+        st.heap[g.rid] = HDict(h.kt, h.vt, z3.Store(h.mem, layer.z, z3.BoolVal(True)), h.vals)
     if 'ntd' in st.ghost and exc == 'NotImplementedError':
         st.ghost['ntd'] = VBool(True)
     if 'bad' in st.ghost and exc in ('OtherException',):
